@@ -142,6 +142,7 @@ type sim struct {
 	dead     bool
 	fastCap  bool
 	rttCfg   time.Duration
+	rateBig  bool
 	o        *oracle
 	slowLeft *int // budget of writes on a really full queue (200 ms each)
 }
@@ -236,13 +237,21 @@ func newSim(c *vhlib.Ctx, ws []string, slowLeft *int) (*sim, bool) {
 }
 
 // predictK: the outcome of maybeRequest's rate/delay test as the model's environment input.
-// The harness keeps the download estimate at 0 or astronomically high, so the test is
-// "always" (k=0) or "never" (k=inf).
+// The harness pins the download estimator (VerifSetDownload: stopped, value 0 or
+// astronomically high) before every op, so the test is "always" (k=0) or "never" (k=inf).
 func (s *sim) predictK(measures bool) string {
-	if s.p.VerifDownloadEstimate() > 1e12 && (s.p.VerifRto() > 0 || measures) {
+	if s.rateBig && (s.p.VerifRto() > 0 || measures) {
 		return "inf"
 	}
 	return "0"
+}
+
+func (s *sim) pinRate() {
+	if s.rateBig {
+		s.p.VerifSetDownload(1e15)
+	} else {
+		s.p.VerifSetDownload(0)
+	}
 }
 
 func (s *sim) outstanding(chunk uint32) bool {
@@ -283,9 +292,9 @@ func (s *sim) exec(ws []string, cur []string) (obs string, tag string) {
 	case "h": // harness-only environment settings (no effect on the model)
 		switch {
 		case len(ws) == 3 && ws[1] == "rate" && ws[2] == "big":
-			s.p.VerifSetDownloadRate(1 << 50)
+			s.rateBig = true
 		case len(ws) == 3 && ws[1] == "rate" && ws[2] == "zero":
-			s.p.VerifSetDownloadRate(-(1 << 62))
+			s.rateBig = false
 		case len(ws) == 3 && ws[1] == "rtt":
 			ms, e := strconv.Atoi(ws[2])
 			if e != nil {
@@ -360,18 +369,18 @@ func (s *sim) exec(ws []string, cur []string) (obs string, tag string) {
 				return bad, tag
 			}
 			m = protocol.RejectRequest{Index: uint32(i), Begin: uint32(b), Length: CS}
-		case "piece":
+		case "piece": // m piece <index> <begin> <data length> <bytes AddData will store> k=
 			i, ok1 := num(2)
 			b, ok2 := num(3)
-			if !ok1 || !ok2 || len(ws) != 6 {
+			l, ok3 := num(4)
+			if !ok1 || !ok2 || !ok3 || len(ws) != 7 || l > 1<<20 {
 				return bad, tag
 			}
 			var data []byte
-			if ws[4] == "0" { // a block AddData refuses: one byte at an odd offset
-				if b%CS == 0 {
-					return bad, tag
-				}
-				data = protocol.GetBuffer(1)
+			if l == CS {
+				data = protocol.GetBuffer(CS)
+			} else if l > 0 {
+				data = make([]byte, l)
 			}
 			// a strictly positive delay for the rtt measurement
 			s.p.VerifAge(time.Microsecond)
@@ -484,6 +493,7 @@ func (s *sim) exec(ws []string, cur []string) (obs string, tag string) {
 		return bad, tag
 	}
 
+	s.pinRate()
 	// a write on a really full queue costs 200 ms of wall time: bounded budget
 	if !s.blocked && len(s.realW) == cap(s.realW) {
 		*s.slowLeft--
